@@ -111,6 +111,7 @@ func cmdCheck(args []string) int {
 			}
 		}()
 		pc.Run(c)
+		genericPack(c)
 		if *tier == "thorough" && rp == nil {
 			thoroughExtras(c, pc)
 		}
